@@ -388,7 +388,7 @@ pub fn run(ctx: &Ctx) {
         ctx.set("cap", json!(format!("wall budget: {} of {} cases explored", res.processed, cases.len())));
     }
     // 2. repetition on the shipped library (hooks off), two processes per chunk
-    let fresh = ctx.tier.pick(8, 16);
+    let fresh = ctx.tier.pick(5, 16);
     let mut validated = 0u64;
     let mut shared: Option<Vec<(usize, String)>> = None;
     match (free_running(ctx, &cases, fresh), free_running_opt(ctx, &cases, 1, true)) {
